@@ -24,7 +24,7 @@ pub fn prop() -> Prop {
                in thorough); alphabet CycleA, CycleB (120 real every_second calls), Deliver(i), Dup(i), Drop(i) on a pool of <= 4 in-flight rotation datagrams; \
                canonical states (relative message ids, key classes, counters as offsets); after every transition: sealing key of each end is held by the peer \
                under the same key id with the same fingerprint, a probe sealed by each end opens at the other; from every state a loss-free fair extension of 6 \
-               rounds must change each end's sealing key at least twice in its last 4 rounds. distinct_nontrivial = canonical states",
+               rounds must change each end's sealing key at least twice in its last 4 rounds. Plus a FIFO-with-loss alphabet to depth 11 / 16 (key slots re-used before a message is delayed). distinct_nontrivial = canonical states",
         run,
         replay,
     }
